@@ -154,6 +154,10 @@ class ExprMixin(object):
     def fold_const(self, mod, node):
         if isinstance(node, ast.Name) and node.id not in self.p.modules[mod].globals:
             return self.global_value(mod, node.id)
+        if isinstance(node, ast.Name):
+            # another module-level constant of the same module
+            v = self.global_value(mod, node.id)
+            return v if isinstance(v, (VConst, VInt, VTuple)) else None
         if isinstance(node, ast.Constant):
             if isinstance(node.value, bool) or node.value is None:
                 return VConst(node.value)
